@@ -16,7 +16,10 @@ RULE = (
     "translate_back and _keep_affixes are compared with os.path.realpath on a real tree; in "
     "addition real builds with sub-plans in nested and sibling working directories are run in the "
     "closed system and every path that reaches the director, and ROOT/HERE of every command, is "
-    "resolved independently; non-trivial: a path with '..' or a working directory other than '.'"
+    "resolved independently; the real amend(), static() and step() are called as a step in every "
+    "HERE would, for every spelling of a file path (with ./, with .., leaving the root and coming "
+    "back through its own name), and the payload bound for the director is resolved "
+    "independently and must be the normalized root-relative path; non-trivial: a path with '..' or a working directory other than '.'"
 )
 ASSUMPTIONS = ["no symbolic links in the tree", "POSIX path semantics"]
 
@@ -45,6 +48,7 @@ def jobs(tier, seed):
     heres = [".", "a", "a/b", "b/a"]
     out = [{"part": "translate", "here": h, "n": n} for h in heres]
     out.append({"part": "builds"})
+    out += [{"part": "api", "here": h, "n": n - 1} for h in heres]
     return out
 
 
@@ -131,6 +135,143 @@ def run_translate(spec, acc):
                 if str(translate(q)) != q:
                     acc.violation(f"C20|translate-identity|{q}", {"path": q, "translated": str(translate(q))}, None)
     finally:
+        os.chdir(saved_cwd)
+        os.environ.clear()
+        os.environ.update(saved_env)
+
+
+class _Recorder:
+    """Stands in for the RPC client of a step: records the payload of every call."""
+
+    def __init__(self):
+        self.calls = []
+
+    @property
+    def call(self):
+        rec = self
+
+        class Proxy:
+            def __getattr__(self, name):
+                def fn(*args, **kwargs):
+                    rec.calls.append((name, args))
+                    return True
+                return fn
+        return Proxy()
+
+
+def run_api(spec, acc):
+    """The real API functions amend(), step() and static(), called as a step in working
+    directory HERE would, for every spelling of a file path; the payload that would reach the
+    director is compared with an independent resolution of the path on a real tree."""
+    from stepup.core import api as su_api
+
+    top = scratch_dir("c20api")
+    root = os.path.join(top, "proj")
+    for d in ("a/b", "b/a", "a/a", "b/b"):
+        os.makedirs(os.path.join(root, d), exist_ok=True)
+    for dirpath, _dirnames, _filenames in list(os.walk(root)):
+        with open(os.path.join(dirpath, "f"), "w") as fh:
+            fh.write("f\n")
+    here = spec["here"]
+    caller_dir = os.path.join(root, here)
+    saved_env = dict(os.environ)
+    saved_cwd = os.getcwd()
+    saved = (su_api.get_rpc_client, su_api._AMEND_HISTORY, su_api._HOLD_STATE)
+    os.environ.update({"STEPUP_ROOT": root, "HERE": here, "ROOT": os.path.relpath(root, caller_dir),
+                       "STEPUP_JOB_I": "1", "STEPUP_STEP_NEED": "PLAN"})
+    os.environ.pop("STEPUP_DIRECTOR_SOCKET", None)
+    os.chdir(caller_dir)
+    # spellings that leave the root and come back through the root's own name
+    dirs_ = ["", *(x + "/" for x in paths(spec["n"]))]
+    up = os.path.relpath(top, caller_dir)
+    dirs_ += [f"{up}/proj/", f"{up}/proj/a/", f"./{up}/proj/"]
+    spellings = []
+    for d in dirs_:
+        spellings.append(d + "f")
+        if not d.startswith("./"):
+            spellings.append("./" + d + "f")
+
+    def check(site, p, sent, base_dir):
+        acc.evaluations += 1
+        want = real(base_dir, p)
+        inside = want.startswith(os.path.realpath(root) + os.sep)
+        if ".." in p or here != "." or p.startswith("./"):
+            acc.nontrivial.add(h8([site, here, p]))
+        sent = str(sent)
+        got = os.path.realpath(sent) if os.path.isabs(sent) else real(root, sent)
+        if got != want:
+            acc.violation(f"C20|api|{site}|{here}|{p}",
+                          {"site": site, "here": here, "path": p, "sent": sent, "designates": got,
+                           "should_designate": want}, None)
+        elif inside and sent != os.path.relpath(want, os.path.realpath(root)):
+            acc.violation(f"C20|api-not-normalized|{site}|{here}|{p}",
+                          {"site": site, "here": here, "path": p, "sent": sent,
+                           "normalized": os.path.relpath(want, os.path.realpath(root))}, None)
+
+    try:
+        for p in spellings:
+            if not os.path.isfile(os.path.join(caller_dir, p)):
+                continue
+            for role in ("inp", "out", "vol"):
+                rec = _Recorder()
+                su_api.get_rpc_client = lambda path=None, rec=rec: rec
+                su_api._AMEND_HISTORY = {"inp": set(), "env": set(), "out": set(), "vol": set()}
+                su_api._HOLD_STATE = su_api._HoldState()
+                try:
+                    su_api.amend(**{role: [p]})
+                except Exception as exc:  # noqa: BLE001
+                    acc.violation(f"C20|api-raises|amend {role}|{here}|{p}", {"error": repr(exc)}, None)
+                    continue
+                calls = [c for c in rec.calls if c[0] == "amend_step"]
+                if len(calls) != 1:
+                    acc.violation(f"C20|api|amend {role}|no-call|{here}|{p}", {"calls": repr(rec.calls)}, None)
+                    continue
+                _job, inp, _env, out, vol = calls[0][1][:5]
+                sent = list({"inp": inp, "out": out, "vol": vol}[role])
+                if len(sent) != 1:
+                    acc.violation(f"C20|api|amend {role}|count|{here}|{p}", {"sent": repr(sent)}, None)
+                    continue
+                check(f"amend {role}", p, sent[0], caller_dir)
+            # static()
+            rec = _Recorder()
+            su_api.get_rpc_client = lambda path=None, rec=rec: rec
+            try:
+                su_api.static(p)
+                calls = [c for c in rec.calls if c[0] == "declare_static"]
+                files = list(calls[0][1][2]) if calls else []
+                if len(files) == 1:
+                    check("static", p, files[0], caller_dir)
+                else:
+                    acc.count("static_not_one_file")
+            except Exception as exc:  # noqa: BLE001
+                acc.count("static_raised")
+                if len(acc.samples) < 3:
+                    acc.sample({"static": p, "here": here, "raised": repr(exc)[:200]})
+            # step() with a working directory: paths are relative to that directory
+            for wd in (".", "a", "./a/", "..", "a/.."):
+                wd_abs = os.path.join(caller_dir, wd)
+                if not os.path.isfile(os.path.join(wd_abs, p)):
+                    continue
+                if not real(wd_abs).startswith(os.path.realpath(root)):
+                    continue
+                rec = _Recorder()
+                su_api.get_rpc_client = lambda path=None, rec=rec: rec
+                try:
+                    su_api.step("cmd", inp=[p], workdir=wd)
+                except Exception as exc:  # noqa: BLE001
+                    acc.violation(f"C20|api-raises|step|{here}|{wd}|{p}", {"error": repr(exc)}, None)
+                    continue
+                calls = [c for c in rec.calls if c[0] == "define_step"]
+                args = calls[0][1]
+                inp_sent, wd_sent = list(args[2]), str(args[6])
+                if len(inp_sent) == 1:
+                    check(f"step inp wd={wd}", p, inp_sent[0], wd_abs)
+                acc.evaluations += 1
+                if real(root, wd_sent) != real(wd_abs):
+                    acc.violation(f"C20|api|step workdir|{here}|{wd}",
+                                  {"here": here, "workdir": wd, "sent": wd_sent}, None)
+    finally:
+        su_api.get_rpc_client, su_api._AMEND_HISTORY, su_api._HOLD_STATE = saved
         os.chdir(saved_cwd)
         os.environ.clear()
         os.environ.update(saved_env)
@@ -228,6 +369,8 @@ def run_job(spec):
     acc = Acc()
     if spec["part"] == "translate":
         run_translate(spec, acc)
+    elif spec["part"] == "api":
+        run_api(spec, acc)
     else:
         run_builds(acc)
     return acc
